@@ -289,3 +289,14 @@ def run(ctx):
     for o in ctx.obligations:
         ctx.samples.append(o.as_dict())
     return ctx.finish()
+
+
+MUTANTS = [
+    {'name': 'reader accepts a batch whose checksum does not match', 'edits': [('src/journal/batch_reader.rs', "                    if got_checksum != expected_checksum {", "                    if got_checksum != expected_checksum && false {")]},
+    {'name': 'batch checksum does not cover the last item', 'edits': [('src/journal/writer.rs', "            hasher.update(&self.buf);\n            byte_count += self.buf.len();\n\n            self.buf.clear();", "            if byte_count < 40 { hasher.update(&self.buf); }\n            byte_count += self.buf.len();\n\n            self.buf.clear();")]},
+    {'name': 'item encoder writes the value length as key length', 'edits': [('src/journal/entry.rs', "    writer.write_u16::<LittleEndian>(key.len() as u16)?;", "    writer.write_u16::<LittleEndian>(value.len() as u16)?;")]},
+    {'name': 'item decoder reads the on-disk length for the key', 'edits': [('src/journal/entry.rs', "                let key = Slice::from_reader(reader, usize::from(key_len))?;", "                let key = Slice::from_reader(reader, on_disk_value_len as usize)?;")]},
+    {'name': 'compression chosen by key length', 'edits': [('src/journal/writer.rs', "                if self.compression_threshold > 0 && item.value.len() >= self.compression_threshold\n                {", "                if self.compression_threshold > 0 && item.key.len() >= self.compression_threshold\n                {")]},
+    {'name': 'clear marker written with the wrong tag', 'edits': [('src/journal/entry.rs', "                writer.write_u8(Tag::Clear.into())?;", "                writer.write_u8(Tag::Start.into())?;")]},
+    {'name': 'trailer not checked', 'edits': [('src/journal/entry.rs', "                if magic != MAGIC_BYTES {", "                if magic != MAGIC_BYTES && false {")]},
+]
